@@ -289,7 +289,9 @@ def tempfile_decorator(func):
             except Exception as e:
                 raise e
             finally:
-                os.unlink(f.name)
+                # the writer may already have removed a file it could not create
+                if os.path.exists(f.name):
+                    os.unlink(f.name)
 
         else:
             # FIXME: it's a string, so it's probably a filename, but we should
